@@ -6,7 +6,7 @@ from vlib.runner import Search, Enumerate
 
 ID = 'C04'
 WATCHDOG_IS_VIOLATION = True   # the statement says the run ends / the line reaches its horizon
-RULE = ('Hypothesis-generated serial lines: 0-6 stations (quick) / 0-10 (thorough), each PartHandler / PartProcessor '
+RULE = ('Hypothesis-generated serial lines: 0-6 stations (quick) / 0-10 (thorough), each PartHandler / PartProcessor (also user subclasses that override the cycle_time getter) '
         '(cycle c) or Buffer (delay c, capacity K in {1,2,3,5,inf}); source cycle c0 (0 only with a finite budget), '
         'budget in {0, 1..20, fractional 0.5/2.5/7.25, inf}; sink cycle; all times on the dyadic grid {0,1/4,1/2,1,3/2,2,3}; horizon on the grid; '
         'tie-break policy random/fifo/lifo/const. Oracle: independent max-plus reference written from the statement '
@@ -27,7 +27,7 @@ EXAMPLES = [
 
 
 def station():
-    hp = st.tuples(st.sampled_from(['H', 'P']), st.sampled_from(GRID)).map(list)
+    hp = st.tuples(st.sampled_from(['H', 'P', 'H', 'P', 'HU', 'PU']), st.sampled_from(GRID)).map(list)
     b = st.tuples(st.just('B'), st.sampled_from(GRID), st.sampled_from([1, 1, 2, 3, 5, 'inf', 1.5, 2.75, 3.5])).map(list)
     return st.one_of(hp, hp, b)
 
